@@ -11,7 +11,7 @@ import sys
 import z3
 
 from .. import common
-from . import _script, _util as U
+from . import _script, _util as U, _gwin
 
 PID = "C02"
 MOD = "bbverif.checks.c02"
@@ -144,6 +144,8 @@ def stmt_lines(kind, env):
 
 
 def gen(spec, lv):
+    if spec[0] == "G":
+        return _gwin.gen(spec, lv)
     meta, stmts = spec
     env = Env(lv)
     lines = meta_lines(meta, lv) + [""]
@@ -195,6 +197,10 @@ def main():
     specs = gen_specs(t, common.seed())
     jobs = [(MOD, s) for s in specs]
     results = U.run_parallel(_script.run_spec, jobs)
+    # skeletons enumerated by the solver from blackbird.g4 (every sentence of a rule with a free token window); the ones
+    # the reference refuses are C11's
+    gs = _gwin.specs_for(rep, t, "accept")
+    results += U.run_parallel(_gwin.run_gspec, [(MOD, g) for g in gs])
     U.collect(rep, results, key_fn=_script.default_key, replay_fn=_script.replay_src(MOD),
               sample_fn=lambda r: {"script": r["text"], "paths": r["paths"], "reference_cases": r.get("refcases")})
     return rep.finish()
